@@ -94,7 +94,7 @@ B = Bounded(
     "are interleaved and staged before setters on nuclides only some children hold; (3) seeded compositions through the densityTools conversions.  distinct = (source, object path, "
     "clause group / sequence seed); non-trivial = the object holds nuclides and has non-zero volume",
     bound="quick: smallest + default reactor: every block, assembly and core, the components of 1-2 seeded blocks per assembly; edge variant: "
-    "the core and its symmetry-line assemblies (about 1850 components in all); 19 shape classes x 3 materials x 3 multiplicities = 171 "
+    "the core and its symmetry-line assemblies (about 1850 components in all); 19 shape classes + a pin / negative-volume gap / clad triple x 3 materials x 3 multiplicities = 180 "
     "generated blocks; about 680 edit sequences of length <= 6 over 46 reactor targets + 3 per generated block, with about 50 child "
     "geometry changes (resize with / without mass conservation, add / insert / remove block, remove assembly) inside 66 assembly / core "
     "sequences of which 21 staged (7 assemblies incl. the cut ones, 3 cores); 300 compositions of <= 12 nuclides.  thorough: every "
@@ -978,6 +978,10 @@ SHAPES = {
     "RadialSegment": dict(inner_radius=0.2, outer_radius=0.6, height=0.8, inner_theta=0.0, outer_theta=1.0),
     "DifferentialRadialSegment": dict(inner_radius=0.2, radius_differential=0.4, inner_axial=0.0, height=0.8, inner_theta=0.0, azimuthal_differential=1.0),
     "Circle+Circle": dict(od=0.8, id=0.2),  # two shaped children sharing nuclides (pin + clad-like ring of the same material)
+    # a pin, a cold clad whose inner diameter is the pin's COLD diameter, and between them a Void gap linked to both: the hot pin
+    # overlaps the clad and the gap has a NEGATIVE area / volume that compensates it (zero when the pin does not expand: a fluid,
+    # or Thot = input temperature) - the "all component shapes" of the statement include this child of signed volume
+    "Circle+Gap": dict(od=0.8, id=0.0),
 }
 # ZeroMassComponent ("never has mass": getNumberDensity is 0 by definition whatever was set) is a bookkeeping helper, not a shape: outside the quantifier
 B.extra["skipped"]["ZeroMassComponent (bookkeeping helper, by definition reads back 0)"] = 1
@@ -992,7 +996,13 @@ def make_block(desc):
         d["mult"] = mult
     c = cls("thing", mat, 25.0, thot, **d)
     b.add(c)
-    if "+" in shape:
+    if shape.endswith("+Gap"):
+        clad = components.Circle("clad", "HT9", 25.0, 25.0, od=0.9, id=0.8, mult=mult)
+        gap = components.Circle("gap", "Void", 25.0, thot, od="clad.id", id="thing.od", mult=mult)
+        gap.resolveLinkedDims({"thing": c, "clad": clad})
+        b.add(gap)
+        b.add(clad)
+    elif "+" in shape:
         b.add(components.Circle("ring", mat, 25.0, min(thot, 450.0), od=1.0, id=0.85, mult=mult))
     b.add(components.Hexagon("duct", "HT9", 25.0, 400.0, op=31.0, ip=30.0, mult=1.0))
     b.add(components.DerivedShape("coolant", "Sodium", 400.0, 400.0))
